@@ -46,7 +46,11 @@ Upd(e) ==
          /\ UNCHANGED <<cfg, chosen, log, attempts, completions, closeState, hangs, tid>>
     [] e.ev = "balance" /\ e.c \in DOMAIN chosen ->
          /\ chosen' = [chosen EXCEPT ![e.c] = (e.i :> e.p) @@ @]
-         /\ UNCHANGED <<cfg, calls, log, attempts, completions, closeState, hangs, tid>>
+         \* the partition list the Writer hands to the Balancer is 0 .. n-1 for the n partitions of the message's topic
+         /\ hangs' = IF "parts" \in DOMAIN e /\ e.topic \in DOMAIN cfg.nparts
+                          /\ e.parts # [k \in 1 .. cfg.nparts[e.topic] |-> k - 1]
+                        THEN hangs \cup {<<"badoffer", 0>>} ELSE hangs
+         /\ UNCHANGED <<cfg, calls, log, attempts, completions, closeState, tid>>
     [] e.ev = "produce" ->
          /\ attempts' = Append(attempts, [tp |-> e.tp, msgs |-> e.msgs, applied |-> e.applied,
                                           ok |-> e.ok, retriable |-> e.retriable,
@@ -81,6 +85,8 @@ Spec == Init /\ [][Next]_mvars
 \* watchdog expires although no further input is needed
 C08_NoStuckCall == \A h \in hangs : h[1] # "call"
 C08_SingleTP == \A h \in hangs : h[1] # "badrequest"
+\* C13 (Writer side): every partition list a Writer supplies to its balancer is the topic's full list, in order
+C13w_OfferedAll == \A h \in hangs : h[1] # "badoffer"
 \* C09 (liveness half, observed): Close returned before the watchdog expired
 C09w_CloseReturns == \A h \in hangs : h[1] # "close"
 
